@@ -10,7 +10,7 @@
 From Coq Require Import String List NArith ZArith Bool Arith.
 From DSD Require Import Base.Str Base.Errors Base.Val Model.ComplexUtils Model.DispatchCU Model.RegStr
   Model.ReaderStr Model.PyNum Model.Peg Model.DispatchPeg Model.Heap Model.Registry Model.DispatchRegistry
-  Model.Reader.
+  Model.Reader Model.ReaderShape.
 From DSDGen Require Import PilGrammar ReaderConsts.
 Import ListNotations.
 Local Open Scope string_scope.
@@ -45,9 +45,13 @@ Definition of_view (cnames : list pstr) (v : pilview) : val :=
 Definition as_ignore (v : val) : option (option (list pstr)) := as_opt as_strs v.
 
 (* parse_pil_string(text) *)
+(* Every line the parser returns must have the shape the reader theorems assume
+   (ReaderShape.line_okb); a line that has not is reported as `BadShape`, which no
+   implementation outcome equals: the claim "the grammar only produces such lines" is
+   checked on every document of every correspondence run. *)
 Definition parse_lines (text : pstr) : res (list tok) :=
   match parse_string pil_grammar text with
-  | POk _ toks => Ok toks
+  | POk _ toks => if forallb line_okb toks then Ok toks else Err (str "BadShape")
   | PFail => Err eParse
   | PFuel => Err eFuel
   end.
